@@ -83,7 +83,10 @@ CLAIMS = {
   extra_note=' C10_ios_acl_resume: for the IOS numbering core the ACL after any prefix of the script again has no line twice, and every run from it (every edit script to the same target) is accepted and ends in an ACL that filters like the target. ASA crypto: every prefix state of the crypto script is resumed on Cisco/Vpn.v (cuts inside the sub-mode block of an ipsec-proposal included); known finding F-C10-1 (entry left without peer). NSX and PAN-OS: every prefix state of the request / command sequence is computed by Nsx/Device.v / Panos/Device.v, rendered, compared again by the real tool, the resumed script executed on the model (must be accepted, reach the target, leave no generated object behind) and a third compare must be silent.',
   technique='Coq resumability theorem for the line core + prefix-state replay of real scripts through the Coq device'),
  'C14': dict(
-  text='C14_linux_routes_covered_stepwise: Coq theorem (all route lists, every prefix). C14_asa_move_free_script_safe_at_every_step and '
+  text='C14_linux_routes_covered_stepwise: Coq theorem (all route lists, every prefix, every containment relation that depends on the destination only); '
+       'C14_linux_routes_prefix_cover_stepwise: its instance for IPv4 prefix containment; the Linux route model is tied to linux.diffRoutes inside this check '
+       'on route-only configurations with nested destinations (same network address under several prefix lengths, summaries, default route): exact script '
+       'comparison and address coverage after every command, evaluated in Coq (vlib/linuxroutes.py). C01_cisco_routes_converge_stepwise (Cisco routes, tied by vlib/routecheck.py). C14_asa_move_free_script_safe_at_every_step and '
        'C14_ios_move_free_script_safe_at_every_step: for EVERY move-free edit script of the ASA and of the IOS model, after any number of its commands '
        'every packet on which old and new ACL agree keeps that verdict, for every first-match semantics. C14_acl_insert_then_delete_safe_partial: Coq theorem '
        'for every first-match semantics (any packet type, matcher, action, default): an intermediate ACL in which the new lines are inserted '
